@@ -20,8 +20,8 @@
 (*     util/convertnhcb.TempHistogram as a state machine over the lines:    *)
 (*     one action per iteration of the loop in Next().                      *)
 (*                                                                         *)
-(* TLC checks Out = Want at the end of every payload, except for the two    *)
-(* recorded deviations KF-C36-1 / KF-C36-2.  The replay harness renders     *)
+(* TLC checks Out = Want at the end of every payload (the deviations        *)
+(* KF-C36-1/2/3 found with this model are fixed).  The harness renders      *)
 (* each payload as text, OpenMetrics and protobuf, parses it with           *)
 (* textparse.New(ConvertClassicHistogramsToNHCB) and compares with Want.    *)
 (***************************************************************************)
@@ -147,10 +147,11 @@ VARIABLES payload, keep,          \* input (fixed at Init)
           cached,                 \* p.entry + cached series (the entry read last)
           pts,                    \* p.ts: timestamp of the series read last
           temp, tempLs, tempEx,   \* p.tempNHCB, p.tempLsetNHCB, p.tempExemplars
+          tempTs,                 \* p.tempTS / p.tempHasTS: timestamp of the series being collated (0 = none)
           last,                   \* p.lastHistogramName / p.lastHistogramLabelsHash
           out, done
 
-vars == <<payload, keep, lines, pos, pstate, typ, cached, pts, temp, tempLs, tempEx, last, out, done>>
+vars == <<payload, keep, lines, pos, pstate, typ, cached, pts, temp, tempLs, tempEx, tempTs, last, out, done>>
 
 EmptyTemp == [b |-> <<>>, count |-> 0, hasCount |-> FALSE, sum |-> 0, err |-> FALSE]
 
@@ -190,28 +191,27 @@ IsClassic(l) == typ[2] = "histogram" /\ l.sfx # "none" /\ l.f = typ[1]
 \* processClassicHistogramSeries + the update function, on an explicit state record
 Collate(s, l) ==
   LET s1 == IF s.pstate # "collecting"
-            THEN [s EXCEPT !.pstate = "collecting", !.last = <<l.f, l.ls>>, !.tempLs = [f |-> l.f, ls |-> l.ls, g |-> l.g]]
+            THEN [s EXCEPT !.pstate = "collecting", !.last = <<l.f, l.ls>>, !.tempLs = [f |-> l.f, ls |-> l.ls, g |-> l.g],
+                           !.tempTs = l.ts]
             ELSE s
       s2 == IF l.ex THEN [s1 EXCEPT !.tempEx = Append(@, l.id)] ELSE s1           \* storeExemplars
   IN CASE l.sfx = "bucket" -> [s2 EXCEPT !.temp = SetBucket(@, l.le, l.v)]
        [] l.sfx = "count"  -> [s2 EXCEPT !.temp = IF @.err THEN @ ELSE [@ EXCEPT !.count = l.v, !.hasCount = TRUE]]
        [] l.sfx = "sum"    -> [s2 EXCEPT !.temp = IF @.err THEN @ ELSE [@ EXCEPT !.sum = l.v]]
 
-\* processNHCB: returns the state after it and the emitted entry (or "none").
-\* ts is p.ts at the time Histogram() is called: the timestamp of the series entry read last.
-ProcessNHCB(s, ts) ==
+\* processNHCB: returns the state after it and the emitted entry (or NoHist).  The histogram carries the timestamp
+\* remembered when the collation started; a result that fails Validate() is dropped like a failed conversion.
+ProcessNHCB(s) ==
   IF s.pstate # "collecting" THEN [s |-> s, h |-> NoHist]
   ELSE LET r == Convert(s.temp) IN
-       IF r.err
+       IF r.err \/ ~r.valid
        THEN [s |-> [s EXCEPT !.pstate = "start", !.temp = EmptyTemp, !.tempEx = <<>>], h |-> NoHist]
-       ELSE IF ~r.valid
-       THEN [s |-> s, h |-> NoHist]             \* h.Validate() failed: returns false without resetting anything
        ELSE [s |-> [s EXCEPT !.pstate = "emitting", !.temp = EmptyTemp, !.tempEx = <<>>],
              h |-> [k |-> "H", g |-> s.tempLs.g, f |-> s.tempLs.f, ls |-> s.tempLs.ls, bounds |-> r.bounds, cnts |-> r.cnts,
-                    count |-> r.count, sum |-> r.sum, ts |-> ts, ex |-> s.tempEx]]
+                    count |-> r.count, sum |-> r.sum, ts |-> s.tempTs, ex |-> s.tempEx]]
 
-S0 == [pstate |-> pstate, temp |-> temp, tempLs |-> tempLs, tempEx |-> tempEx, last |-> last]
-Install(s) == /\ pstate' = s.pstate /\ temp' = s.temp /\ tempLs' = s.tempLs /\ tempEx' = s.tempEx /\ last' = s.last
+S0 == [pstate |-> pstate, temp |-> temp, tempLs |-> tempLs, tempEx |-> tempEx, tempTs |-> tempTs, last |-> last]
+Install(s) == /\ pstate' = s.pstate /\ temp' = s.temp /\ tempLs' = s.tempLs /\ tempEx' = s.tempEx /\ tempTs' = s.tempTs /\ last' = s.last
 
 \* handle a series line in state start/collecting (after a possible emission): collate or pass through
 HandleSeries(s, l, pre) ==
@@ -234,7 +234,7 @@ Read ==
   /\ ~done /\ pstate # "emitting"
   /\ IF pos > Len(lines)
      THEN \* io.EOF: emit what was collected
-          LET r == ProcessNHCB(S0, pts) IN
+          LET r == ProcessNHCB(S0) IN
           /\ Install(r.s)
           /\ out' = IF r.h.k = "none" THEN out ELSE Append(out, r.h)
           /\ cached' = [k |-> "eof"]
@@ -245,7 +245,7 @@ Read ==
           /\ cached' = l
           /\ UNCHANGED done
           /\ IF l.k = "type"
-             THEN LET r == ProcessNHCB(S0, pts) IN            \* bottom of the switch: if p.processNHCB() { return EntryHistogram }
+             THEN LET r == ProcessNHCB(S0) IN                 \* bottom of the switch: if p.processNHCB() { return EntryHistogram }
                   /\ typ' = <<l.f, l.t>>
                   /\ Install(r.s)
                   /\ out' = IF r.h.k = "none" THEN out ELSE Append(out, r.h)
@@ -253,7 +253,7 @@ Read ==
              ELSE /\ pts' = l.ts                              \* p.bytes, p.ts, p.value = p.parser.Series()
                   /\ UNCHANGED typ
                   /\ IF pstate = "collecting" /\ DifferentMetric(l)
-                     THEN LET r == ProcessNHCB(S0, l.ts) IN   \* Histogram() will return p.ts = the NEW series' timestamp
+                     THEN LET r == ProcessNHCB(S0) IN
                           IF r.h.k # "none"
                           THEN /\ Install(r.s) /\ out' = Append(out, r.h)       \* the series stays cached for Resume
                           ELSE HandleSeries(r.s, l, <<>>)
@@ -272,7 +272,7 @@ Init ==
   /\ keep \in Keeps
   /\ lines = Lines(payload) /\ pos = 1
   /\ pstate = "start" /\ typ = <<"", "unknown">> /\ cached = [k |-> "none"] /\ pts = 0
-  /\ temp = EmptyTemp /\ tempLs = [f |-> "", ls |-> "", g |-> 0] /\ tempEx = <<>> /\ last = <<"", "">>
+  /\ temp = EmptyTemp /\ tempLs = [f |-> "", ls |-> "", g |-> 0] /\ tempEx = <<>> /\ tempTs = 0 /\ last = <<"", "">>
   /\ out = <<>> /\ done = FALSE
 
 Next == Resume \/ Read
@@ -286,25 +286,10 @@ TextPayload == \A g \in DOMAIN payload : payload[g].k # "native"
 
 Visible(q) == SelectSeq(q, LAMBDA e : e.ls # "x")
 
-\* KF-C36-1: the NHCB is returned with the timestamp of the series line that follows the group (p.ts was already
-\* overwritten when Histogram() is called) - visible when that line's timestamp differs from the group's
-KF1 == \E g \in 1..(Len(payload) - 1) :
-          /\ Convertible(payload, g) /\ ~HasType(payload, g + 1) /\ payload[g + 1].ts # payload[g].ts
-\* KF-C36-2: after a collected histogram fails validation (negative bucket) processNHCB neither emits nor resets, so
-\* the lines of the next histogram are merged into the stale collection
-KF2 == \E g \in 1..(Len(payload) - 1) : payload[g].sh = "bad" /\ Convertible(payload, g)
-
-\* KF-C36-3 (protobuf only, not transcribed): with keep-classic, after the classic series of a metric that also has an
-\* exponential histogram ProtobufParser moves to the next metric in state EntryHistogram without checking that it is
-\* native; a classic-only metric that follows is returned as a histogram entry with nil histograms and then skipped
-KF3 == keep /\ \E g \in 1..(Len(payload) - 1) :
-          payload[g].k = "native" /\ payload[g + 1].k = "hist" /\ payload[g + 1].f = payload[g].f
-
-OutMatchesWant == (done /\ TextPayload) => (Visible(out) = Visible(Want(payload, keep)) \/ KF1 \/ KF2)
-
-\* without a timestamp change and without an inconsistent histogram the conversion is exact
-\* (same statement, kept separate so that a config can check it on payloads where KF1/KF2 are impossible)
-OutMatchesWantStrict == (done /\ TextPayload /\ ~KF1 /\ ~KF2) => Visible(out) = Visible(Want(payload, keep))
+\* C36 on the design: the emitted stream is exactly the demanded one.  (Three deviations found with this model are
+\* fixed in the code and removed from the transcription: KF-C36-1 timestamp of the following series, KF-C36-2 stale
+\* collation after a validation failure, KF-C36-3 protobuf nil histogram - see notes/C36.md.)
+OutMatchesWant == (done /\ TextPayload) => Visible(out) = Visible(Want(payload, keep))
 
 \* every NHCB ever emitted is internally consistent: counts add up to count
 EmittedConsistent == \A i \in DOMAIN out : out[i].k = "H" =>
@@ -314,8 +299,7 @@ EmittedConsistent == \A i \in DOMAIN out : out[i].k = "H" =>
                                       LET RECURSIVE Sum(_) Sum(n) == IF n = 0 THEN 0 ELSE h.cnts[n] + Sum(n - 1) IN Sum(Len(h.cnts)))
 
 \* the parser terminates with nothing left in collection
-HasBad == \E g \in DOMAIN payload : payload[g].sh = "bad" /\ Convertible(payload, g)
-Drained == done => (pstate = "start" \/ HasBad)
+Drained == done => pstate = "start"
 
 TypeOK == /\ pstate \in {"start", "collecting", "emitting"}
           /\ pos \in 1..(Len(lines) + 1)
@@ -327,7 +311,6 @@ Behaviour ==
       differs == TextPayload /\ Visible(out) # Visible(w) IN
   [keep |-> keep, payload |-> payload, lines |-> lines, want |-> w,
    text |-> TextPayload,
-   kf1 |-> KF1, kf2 |-> KF2, kf3 |-> KF3,
    impl |-> IF differs THEN out ELSE <<>>]
 
 EmitDone == ~done \/ PrintT("@@TR " \o ToJson(Behaviour))
